@@ -28,8 +28,7 @@ def main(argv):
     pad, nopad, nobj, ntypes = decoder.padding_sets(driver.build.REPO)
     exe, tables = enumcheck.reflect_harness("h_codec", "plain-asan")
     common = ["mode=frame", "pad=" + ",".join(map(str, pad)), "nopad=" + ",".join(map(str, nopad))]
-    if tier != "quick":
-        common.append("big=1")
+    common.append("big=1")
     n = 16
     jobs = [(exe, common + ["shard=%d/%d" % (i, n)]) for i in range(n)]
     res = enumcheck.run_jobs(jobs, timeout=900)
